@@ -176,8 +176,8 @@ contract(F, "TableMethod._compute_shift", props=["C03"], aliases=FAL,
                   "val(old(" + _TFV.format(k="rule_key[0]") + "))))))",
                   # reading the function never changes a value
                   "forall(lambda k: implies(0 <= k, " + _TFV.format(k="k") + " == old(" + _TFV.format(k="k") + ")))"],
-         modifies=["*self._function._value", "*self._function._preimage_count._list", "all:List(Opt(Int))"],
-         notes="initial shifts of a newly inserted rule from the current values")
+         modifies=["*self._function._value", "*self._function._preimage_count._list"],
+         notes="initial shifts of a newly inserted rule from the current values; no existing row is touched")
 
 # ---------------------------------------------------------------- inserting a rule key (C03/C11): well-formedness at the call sites
 _WFKEY = ("{k}.parent >= 0 and len({k}.children) == len({k}.shifts) and "
@@ -188,7 +188,7 @@ _TM_STATE = ["self._current_gap", "*self._processing_queue", "*self._rule_holdin
 _TM_FUN = ["*self._function._value", "*self._function._preimage_count._list", "self._function._infinity_count",
            "all:List(Opt(Int))"]
 # the two index structures (rules pumping / using a class): rows are created on first access and only ever rewritten in place
-_TM_IDX = ["*self._rules_using_class._list", "*self._rules_pumping_class._list", "all:List(Int)", "all:List(Tup(Int, Int))"]
+_TM_IDX = ["*self._rules_using_class._list", "*self._rules_pumping_class._list", "all:List(Int)", "all:List(Tup(Int, Int))", "self.posP"]
 contract(F, "TableMethod._correct_gap", props=["C03"], aliases=FAL,
          params={"self": Obj("TableMethod")},
          requires=["self._gap_size >= 1"],
@@ -227,11 +227,43 @@ _P_ALL_DIST = ("forall(lambda c, k, l: implies(0 <= c and c < len(" + _PL + ") a
 _SROWS_DISTINCT = "forall(lambda r, q: implies(0 <= r and r < q and q < len(self._shifts), not same(self._shifts[r], self._shifts[q])))"
 # one row of shifts per stored rule, each an existing list (well-typed heap, stated because the rows are reached through a quantifier)
 _SROWS_ALLOC = "len(self._shifts) == len(self._rules) and forall(lambda r: implies(0 <= r and r < len(self._shifts), allocated(self._shifts[r])))"
-_IDX_WF = ["wf(self._rules_using_class)", "wf(self._rules_pumping_class)", _HIST_APART, _P_ALL_OK, _P_ALL_DIST, _SROWS_DISTINCT, _SROWS_ALLOC]
+# ... each recorded under its own parent; and (completeness, with the ghost position map posP) every stored rule whose parent is
+# still finite IS recorded among the rules pumping its parent
+_P_PARENT = ("forall(lambda c, k: implies(0 <= c and c < len(" + _PL + ") and 0 <= k and k < len(" + _PL + "[c]), "
+             "self._rules[" + _PL + "[c][k]].parent == c))")
+_P_COMPLETE = ("forall_t(lambda r: implies(0 <= r and r < len(self._rules) and not is_none(" + _TFV.format(k="self._rules[r].parent") + "), "
+               "self._rules[r].parent < len(" + _PL + ") and 0 <= self.posP[r] and self.posP[r] < len(" + _PL + "[self._rules[r].parent]) and "
+               + _PL + "[self._rules[r].parent][self.posP[r]] == r))")
+# every recorded "(rule r, child position i) uses class c" is a valid position of a stored rule whose i-th child is c, recorded once;
+# a row of shifts is as long as its rule has children
+_ULL = "self._rules_using_class._list"
+_U_SOUND = ("forall(lambda c, k: implies(0 <= c and c < len(" + _ULL + ") and 0 <= k and k < len(" + _ULL + "[c]), "
+            "0 <= " + _ULL + "[c][k][0] and " + _ULL + "[c][k][0] < len(self._rules) and 0 <= " + _ULL + "[c][k][1] and "
+            + _ULL + "[c][k][1] < len(self._rules[" + _ULL + "[c][k][0]].children) and "
+            "self._rules[" + _ULL + "[c][k][0]].children[" + _ULL + "[c][k][1]] == c))")
+_U_DIST = ("forall(lambda c, k, l: implies(0 <= c and c < len(" + _ULL + ") and 0 <= k and k < l and l < len(" + _ULL + "[c]), "
+           + _ULL + "[c][k] != " + _ULL + "[c][l]))")
+_SROW_LEN = ("forall(lambda r: implies(0 <= r and r < len(self._shifts), len(self._shifts[r]) == len(self._rules[r].children) and "
+             "len(self._rules[r].shifts) == len(self._rules[r].children)))")
+_IDX_WF = ["wf(self._rules_using_class)", "wf(self._rules_pumping_class)", _HIST_APART, _P_ALL_OK, _P_ALL_DIST, _SROWS_DISTINCT, _SROWS_ALLOC,
+           _P_PARENT, _P_COMPLETE, _U_SOUND, _U_DIST, _SROW_LEN]
+# SHIFTS NEVER OVERESTIMATE (the soundness half of shift coherence): for a rule whose parent is finite, an infinite shift means the
+# child is infinite, and a finite shift of a finite child is at most  value(child) + declared shift - value(parent)
+_FVP = _TFV.format(k="self._rules[r].parent")
+_FVC = _TFV.format(k="self._rules[r].children[i]")
+_SILE_MID = ("forall_t(lambda r, i: implies(0 <= r and r < len(self._shifts) and 0 <= i and i < len(self._shifts[r]) and not is_none(" + _FVP + "), "
+             "implies(is_none(self._shifts[r][i]), is_none(" + _FVC + ")) and "
+             "implies(not is_none(self._shifts[r][i]) and not is_none(" + _FVC + "), "
+             "val(self._shifts[r][i]) <= val(" + _FVC + ") + self._rules[r].shifts[i] - val(" + _FVP + ") "
+             "- ite(self._rules[r].children[i] == comb_class, 1, 0){extra})))")
+_SILE = ("forall_t(lambda r, i: implies(0 <= r and r < len(self._shifts) and 0 <= i and i < len(self._shifts[r]) and not is_none(" + _FVP + "), "
+         "implies(is_none(self._shifts[r][i]), is_none(" + _FVC + ")) and "
+         "implies(not is_none(self._shifts[r][i]) and not is_none(" + _FVC + "), "
+         "val(self._shifts[r][i]) <= val(" + _FVC + ") + self._rules[r].shifts[i] - val(" + _FVP + "))))")
 # the gap is at least as wide as the largest declared shift (of either sign) of any stored rule -- BEFORE anything is propagated
 _GAPCOVER = ("forall(lambda r, i: implies(0 <= r and r < len(self._rules) and 0 <= i and i < len(self._rules[r].shifts), "
              "0 - self._gap_size <= self._rules[r].shifts[i] and self._rules[r].shifts[i] <= self._gap_size))")
-_TBL_INV = ["self._gap_size >= 1", _NONNEG, _ROWS_APART, _PARENTS_OK, _GAPCOVER] + _IDX_WF
+_TBL_INV = ["self._gap_size >= 1", _NONNEG, _ROWS_APART, _PARENTS_OK, _GAPCOVER] + _IDX_WF + [_SILE]
 
 
 def tbl_inv(name):
@@ -269,6 +301,7 @@ for _nm, _row in (("DefaultListIdx", List(Int)), ("DefaultListPairs", List(Pair)
                       "forall(lambda i: implies(0 <= i and i < len(self._list) and i != key, same(self._list[i], old(self._list[i]))))"],
              modifies=["*self._list"])
 REG.classes["TableMethod"].fields.update({"_rules_using_class": Obj("DefaultListPairs"), "_rules_pumping_class": Obj("DefaultListIdx")})
+REG.classes["TableMethod"].ghost_fields.update({"posP": Map(Int, Int)})      # position of rule r in the row of its parent
 
 _UL = "self._rules_using_class._list"
 _REGISTERED = ("forall_t(lambda j: implies(0 <= j and j < {hi} and not is_none(" + _TFV.format(k="rule_key.children[j]") + "), "
@@ -289,7 +322,11 @@ contract(F, "TableMethod.add_rule_key", props=["C03", "C11"], lenient=True, alia
          # recorded among the rules using that class (so that a later increase of the child reaches this rule's shift),
          # the rule is recorded among those pumping its parent, and it is queued
          ghost={"wit": Map(Int, Int)},        # position of the entry recorded for child j in the row of its class
-         ghost_stmts={"after:~self._rules_using_class[child].append(": [
+         ghost_stmts={"after:~self._shifts.append(": ["assert " + _SROW_LEN, "assert " + _U_SOUND, "assert " + _SILE],
+                      "after:~self._rules_pumping_class[rule_key.parent].append(rule_idx)": [
+                          "self.posP = mset(self.posP, rule_idx, len(" + _PL + "[rule_key.parent]) - 1)",
+                          "assert " + _P_COMPLETE],
+                      "after:~self._rules_using_class[child].append(": [
                           # the append keeps the earlier entries: same rows, never shorter, same content at the recorded places
                           "assert forall_t(lambda j: implies(0 <= j and j < len(rule_key.children), rule_key.children[j] >= 0))",
                           "assert " + _EARLIER.format(body="rule_key.children[j] < at('iter0', len(" + _UL + "))"),
@@ -303,7 +340,11 @@ contract(F, "TableMethod.add_rule_key", props=["C03", "C11"], lenient=True, alia
                                        "assert rule_idx == len(self._rules) - 1", "assert " + _PUMP_LAST]},
          # (only what the loop can change is restated: function lists and the rows of rules using a class; the rest of the
          # table invariant is about locations outside the loop's frame)
-         loops={0: dict(invariant=[_NONNEG, "wf(self._rules_using_class)", _REGISTERED.format(hi="_i0")],
+         loops={0: dict(invariant=[_NONNEG, "wf(self._rules_using_class)", _P_COMPLETE, _SILE, _U_SOUND,
+                                   # entries of the new rule are those of the positions met so far; every other entry is of an older rule
+                                   "forall(lambda c, k: implies(0 <= c and c < len(" + _ULL + ") and 0 <= k and k < len(" + _ULL + "[c]), "
+                                   + _ULL + "[c][k][0] < rule_idx or (" + _ULL + "[c][k][0] == rule_idx and " + _ULL + "[c][k][1] < _i0)))",
+                                   _U_DIST, _REGISTERED.format(hi="_i0")],
                         modifies=["*self._function._value", "*self._function._preimage_count._list", "*self._rules_using_class._list",
                                   "all:List(Tup(Int, Int))"])},
          modifies=["*self._rules", "*self._shifts", "self._gap_size"] + _TM_STATE + _TM_FUN + _TM_IDX,
@@ -482,9 +523,9 @@ _TFV_AT = lambda lbl: ("forall(lambda k: implies(0 <= k, " + _TFV.format(k="k") 
 _OTHERS_SAME = ("forall(lambda k: implies(0 <= k and k != comb_class, " + _TFV.format(k="k") + " == old(" + _TFV.format(k="k") + ")))")
 contract(F, "TableMethod._increase_value", props=["C03"], lenient=True, aliases=FAL,
          params={"self": Obj("TableMethod"), "comb_class": Int, "rule_idx": Int},
-         requires=["comb_class >= 0", "self._gap_size >= 1", _NONNEG, _ROWS_APART] + _IDX_WF,
+         requires=["comb_class >= 0", "self._gap_size >= 1", _NONNEG, _ROWS_APART, _PARENTS_OK, _SILE] + _IDX_WF,
          may_raise=["AssertionError", "IndexError", "ValueError"], asserts="raise",
-         ensures=_IDX_WF + ["implies(called_after('Function.increase_value', 'TableMethod._increase_value'), "
+         ensures=_IDX_WF + [_SILE, "implies(called_after('Function.increase_value', 'TableMethod._increase_value'), "
                   "self._current_gap[0] == last_result('Function.preimage_gap'))",
                   # the value of the class goes up by at most one; an infinite value and every other class are untouched
                   _OTHERS_SAME, _NONNEG,
@@ -513,8 +554,22 @@ contract(F, "TableMethod._increase_value", props=["C03"], lenient=True, aliases=
                                    "forall(lambda i: implies(0 <= i and i < _i1, shifts[i] == " + _DEC.format(x="at('loop1', shifts[i])") + "))",
                                    "forall(lambda i: implies(_i1 <= i and i < len(shifts), shifts[i] == at('loop1', shifts[i])))"],
                         modifies=["*shifts"]),
-                2: dict(invariant=[_TFV_AT("loop2")] + _IDX_WF, modifies=["all:List(Opt(Int))", "*self._processing_queue"])},
+                # the entries recorded for (rule, child position) pairs using the class: each goes up by one, nothing else moves
+                2: dict(invariant=[_TFV_AT("loop2")] + _IDX_WF + [
+                    "comb_class < len(" + _ULL + ")",
+                    "forall(lambda k: implies(0 <= k and k < _i2, not is_none(at('loop2', " + _UENT.format(k="k") + ")) and "
+                    + _UENT.format(k="k") + " == val(at('loop2', " + _UENT.format(k="k") + ")) + 1))",
+                    "forall(lambda r, i: implies(0 <= r and r < len(self._shifts) and 0 <= i and i < len(self._shifts[r]) and "
+                    "forall(lambda k: implies(0 <= k and k < _i2, not (" + _UROW + "[k][0] == r and " + _UROW + "[k][1] == i))), "
+                    "self._shifts[r][i] == at('loop2', self._shifts[r][i])))"],
+                        modifies=["all:List(Opt(Int))", "*self._processing_queue"])},
          ghost_stmts={"after:loop#1": ["assert forall(lambda i: implies(0 <= i and i < len(shifts), shifts[i] == " + _DEC.format(x="at('iter0', cur(shifts)[i])") + "))"],
+                      # stepping stones of "shifts never overestimate" across the increase of value(comb_class):
+                      #   before the loops the bound is off by +1 for the rows of rules pumping the class (their parent grew) and
+                      #   has a slack of 1 for the entries whose child is the class (their child grew); the first loop takes the +1
+                      #   away, the second uses the slack
+                      "before:loop#0": ["assert " + _SILE_MID.format(extra=" + ite(self._rules[r].parent == comb_class, 1, 0)")],
+                      "after:loop#0": ["assert " + _SILE_MID.format(extra="")],
                       # a rule using the class: the entry of that child position goes up by one (it was finite)
                       "after:~shifts[class_idx] = current_shift": ["assert shifts[" + _NCI + "] == val(at('iter2', cur(shifts)[" + _NCI.replace("class_idx", "cur(class_idx)").replace("len(shifts)", "len(cur(shifts))") + "])) + 1"]},
          modifies=_TM_STATE + _TM_FUN + _TM_IDX,
@@ -524,17 +579,25 @@ contract(F, "TableMethod._increase_value", props=["C03"], lenient=True, aliases=
 _CCV = _TFV.format(k="comb_class")
 contract(F, "TableMethod._set_infinite", props=["C03"], lenient=True, aliases=FAL,
          params={"self": Obj("TableMethod"), "comb_class": Int},
-         requires=["comb_class >= 0", _NONNEG, _ROWS_APART, _PARENTS_OK] + _IDX_WF,
+         requires=["comb_class >= 0", _NONNEG, _ROWS_APART, _PARENTS_OK, _SILE] + _IDX_WF,
          # a class is declared infinite only from above the gap and only when nothing is left to process
          raises=[("AssertionError", "not is_none(" + _CCV + ") and (val(" + _CCV + ") <= self._current_gap[1] or len(self._processing_queue) > 0)")],
          may_raise=["IndexError"], asserts="raise",
-         ensures=_IDX_WF + ["is_none(" + _CCV + ")", _OTHERS_SAME, _NONNEG,
+         ensures=_IDX_WF + [_SILE, "is_none(" + _CCV + ")", _OTHERS_SAME, _NONNEG,
                   "self._function._infinity_count == old(self._function._infinity_count) + ite(is_none(old(" + _CCV + ")), 0, 1)",
                   "self._current_gap == old(self._current_gap)",
                   "forall(lambda r: (r in self._rule_holding_extra_terms) == old(r in self._rule_holding_extra_terms))"],
          loops={0: dict(invariant=[_TFV_AT("loop0"), _PARENTS_OK] + _IDX_WF, modifies=["*self._rules_using_class._list", "all:List(Tup(Int, Int))"]),
                 1: dict(invariant=[_TFV_AT("loop1"), _PARENTS_OK] + _IDX_WF, modifies=["*self._rules_using_class._list", "all:List(Tup(Int, Int))"]),
-                2: dict(invariant=[_TFV_AT("loop2")] + _IDX_WF, modifies=["all:List(Opt(Int))", "*self._processing_queue"])},
+                # the entries recorded for the class become infinite, nothing else in the table moves
+                2: dict(invariant=[_TFV_AT("loop2")] + _IDX_WF + [
+                    "comb_class < len(" + _ULL + ")",
+                    "forall(lambda r: implies(0 <= r and r < len(self._shifts), len(self._shifts[r]) == at('loop2', len(self._shifts[r]))))",
+                    "forall(lambda k: implies(0 <= k and k < _i2, is_none(" + _UENT.format(k="k") + ")))",
+                    "forall(lambda r, i: implies(0 <= r and r < len(self._shifts) and 0 <= i and i < len(self._shifts[r]) and "
+                    "forall(lambda k: implies(0 <= k and k < _i2, not (" + _UROW + "[k][0] == r and " + _UROW + "[k][1] == i))), "
+                    "self._shifts[r][i] == at('loop2', self._shifts[r][i])))"],
+                        modifies=["all:List(Opt(Int))", "*self._processing_queue"])},
          modifies=["*self._processing_queue"] + _TM_FUN + _TM_IDX,
          notes="the class becomes infinite, every other value is untouched; refused (assertion) below the gap or with work queued")
 
@@ -546,17 +609,25 @@ contract(F, "TableMethod._set_infinite", props=["C03"], lenient=True, aliases=FA
 _ROW = "caller_self._shifts[ite(rule_idx < 0, rule_idx + len(caller_self._shifts), rule_idx)]"
 _KEYOF = "caller_self._rules[ite(rule_idx < 0, rule_idx + len(caller_self._rules), rule_idx)]"
 _ALL_POS = ("forall(lambda i: implies(0 <= i and i < len(" + _ROW + "), is_none(" + _ROW + "[i]) or val(" + _ROW + "[i]) > 0))")
+# ... and therefore (shifts never overestimate) the rule really yields a term beyond the parent's current value: every child is
+# infinite or has   value(child) + declared shift >= value(parent) + 1
+_CFV = lambda e: "ite({k} < len(caller_self._function._value), caller_self._function._value[{k}], 0)".format(k=e)
+_NIDX = "ite(rule_idx < 0, rule_idx + len(caller_self._rules), rule_idx)"
+_KR = "caller_self._rules[r]"
+_JUSTIFIED = ("forall_t(lambda r, i: implies(r == " + _NIDX + " and 0 <= i and i < len(" + _KR + ".children) and not is_none(" + _CFV(_KR + ".parent") + "), "
+              "is_none(" + _CFV(_KR + ".children[i]") + ") or "
+              "val(" + _CFV(_KR + ".children[i]") + ") + " + _KR + ".shifts[i] >= val(" + _CFV(_KR + ".parent") + ") + 1))")
 _PQ_INV = _TBL_INV
 contract(F, "TableMethod._process_queue", props=["C03"], lenient=True, aliases=FAL,
          params={"self": Obj("TableMethod")},
          requires=_PQ_INV,
          may_raise=["AssertionError", "IndexError", "ValueError"],
          call_requires={
-             "TableMethod._increase_value": ["comb_class == " + _KEYOF + ".parent", _ALL_POS],
+             "TableMethod._increase_value": ["comb_class == " + _KEYOF + ".parent", _ALL_POS, _JUSTIFIED],
              "TableMethod._set_infinite": ["len(caller_self._processing_queue) == 0",
                                            "exists(lambda r: 0 <= r and r < len(caller_self._rules) and "
                                            "comb_class == caller_self._rules[r].parent)"]},
-         ensures=_IDX_WF + [_NONNEG, "len(self._processing_queue) == 0", "len(self._rule_holding_extra_terms) == 0",
+         ensures=_TBL_INV + ["len(self._processing_queue) == 0", "len(self._rule_holding_extra_terms) == 0",
                   # values only grow: a finite value never decreases and an infinite one stays infinite
                   "forall(lambda k: implies(0 <= k and is_none(old(" + _TFV.format(k="k") + ")), is_none(" + _TFV.format(k="k") + ")))",
                   "forall(lambda k: implies(0 <= k and not is_none(" + _TFV.format(k="k") + "), "
